@@ -741,7 +741,9 @@ func ruleOneShotCallbacks(c *Ctx, rule string) {
 		if isControlFn(fn) || fn.Parent() != nil || !strings.HasPrefix(fnPkgPath(fn), pkCore) {
 			continue
 		}
-		for _, ci := range callsIn(fn, func(ci ssa.CallInstruction) bool { return ci.Common().IsInvoke() && ci.Common().Method.Name() == "AddCallback" }) {
+		for _, ci := range callsIn(fn, func(ci ssa.CallInstruction) bool {
+			return ci.Common().IsInvoke() && ci.Common().Method.Name() == "AddCallback"
+		}) {
 			for _, cb := range funcValuesOf(ci.Common().Args[1]) {
 				var closes []ssa.Instruction
 				forEachInstr(cb, func(_ *ssa.BasicBlock, _ int, in ssa.Instruction) {
